@@ -63,7 +63,7 @@ CallClause(cfg, s, e) ==
 RankClause(cfg, s, e) ==
   LET tol == I!TolUlps(e.nfold) IN
   CASE ~I!RankOK(e.rank, cfg.B, e.len)              -> "rank_guard"
-    [] e.k0 # s.k                                   -> "stream_position"
+    [] e.k0 + e.len # s.k                           -> "stream_position"     \* logged right after its call
     [] e.shape_rot # I!OutShape(cfg.B, e.len, 4)    -> "rank_shape_rot"
     [] e.shape_vel # I!OutShape(cfg.B, e.len, 3)    -> "rank_shape_vel"
     [] e.shape_pos # I!OutShape(cfg.B, e.len, 3)    -> "rank_shape_pos"
